@@ -4,9 +4,9 @@
   strings (`List Nat` with every element `< 256`, any length): messages, relay states, destinations,
   entity ids, handles.  zlib and SHA-1 are parameters with their laws as hypotheses.
 
-  Helper lemmas: `Proofs/C14Codec.lean`, `C14Url.lean`, `C14Html.lean`, `C14Form.lean`, `C14Misc.lean`.
+  Helper lemmas: `Proofs/C14Codec.lean`, `C14Url.lean`, `C14Html.lean`, `C14Form.lean`, `C14Misc.lean`, `C14Open.lean`.
 -/
-import PysamlModel.Proofs.C14Misc
+import PysamlModel.Proofs.C14Open
 
 namespace C14
 open Codec HtmlScan Bindings C14Spec
@@ -363,6 +363,208 @@ example : soapWrapStr ([60, 63, 120, 109, 108, 63, 62] ++ (60 :: 97 :: 62 :: Gen
     envPre ++ (60 :: 97 :: 62 :: Gen.FormSpec.xmlPrefix ++ [60, 47, 97, 62]) ++ envPost := by decide
 
 example : soapWrapStr [60, 97, 47, 62] = envPre ++ [60, 97, 47, 62] ++ envPost := by decide
+
+/-! ## 4b. SOAP with header blocks (ECP / PAOS): `class_instances_from_soap_enveloped_saml_thingies` -/
+
+/-- **Header-carrying round trip.**  Any message element and ANY list of header blocks whose classes
+    the receiver's schema modules list: wrapping and opening gives back exactly the header blocks, in
+    order, and the message, each whole. -/
+theorem C14_soap_open_roundtrip {ε : Type} (known : ε → Bool) (hdrs : List ε) (e : ε)
+    (he : known e = true) (hh : ∀ h ∈ hdrs, known h = true) :
+    soapOpenTree known (soapWrapTree hdrs e) = .ok hdrs (some e) := by
+  rw [soapOpen_wrap]
+  have : hdrs.all known = true := List.all_eq_true.mpr hh
+  simp [he, this]
+
+/-- An element of a class no module lists, as message or as header block, is refused (never
+    delivered as something else, never silently dropped). -/
+theorem C14_soap_open_unknown_refused {ε : Type} (known : ε → Bool) (hdrs : List ε) (e : ε)
+    (h : known e = false ∨ ∃ x ∈ hdrs, known x = false) :
+    soapOpenTree known (soapWrapTree hdrs e) = .refused := by
+  rw [soapOpen_wrap]
+  rcases h with h | ⟨x, hx, hk⟩
+  · simp [h]
+  · have : hdrs.all known = false := by
+      rw [Bool.eq_false_iff]
+      intro ha
+      have := (List.all_eq_true.mp ha) x hx
+      simp [hk] at this
+    simp [this]
+
+/-- **Any envelope** (also one made elsewhere: several Header and Body parts, foreign parts): when the
+    receiver accepts it, the root was the SOAP Envelope, the header list is ALL children of ALL Header
+    parts in document order, the body is the first child of the last Body part (`None` iff there is no
+    Body part), and every returned element is of a listed class. -/
+theorem C14_soap_open_sound {ε : Type} (known : ε → Bool) (env : Envelope ε) (hs : List ε) (b : Option ε)
+    (h : soapOpenTree known env = .ok hs b) :
+    env.tagOk = true ∧ hs = headerItems env.parts ∧ lastBodyHead env.parts none = b.map some ∧
+      (∀ x ∈ hs, known x = true) ∧ (∀ x, b = some x → known x = true) := by
+  unfold soapOpenTree at h
+  by_cases ht : env.tagOk = true
+  · by_cases hp : env.parts.isEmpty = true
+    · simp [ht, hp] at h
+    · simp only [ht, hp, Bool.not_true, Bool.false_eq_true, if_false] at h
+      obtain ⟨h1, h2, h3, h4⟩ := openParts_ok known env.parts [] none hs b h
+      refine ⟨ht, by simpa using h1, by simpa using h2, ?_, ?_⟩
+      · intro x hx
+        rw [h1] at hx
+        exact h3 x (by simpa using hx)
+      · intro x hx
+        rcases h4 x hx with h5 | h5
+        · cases h5
+        · exact h5
+  · simp [ht] at h
+
+example : soapOpenTree (fun (e : Nat) => e < 100) (soapWrapTree [7, 8] 13) = .ok [7, 8] (some 13) ∧
+    soapOpenTree (fun (e : Nat) => e < 100) (soapWrapTree [7, 800] 13) = .refused ∧
+    soapOpenTree (fun (e : Nat) => e < 100) (soapWrapTree [] 130) = .refused ∧
+    soapOpenTree (fun (e : Nat) => e < 100) { tagOk := true, parts := [.header [1], .body [2, 3], .other, .header [4, 5], .body [6]] } =
+      .ok [1, 4, 5] (some 6) ∧
+    soapOpenTree (fun (e : Nat) => e < 100) { tagOk := true, parts := [.header [1], .body []] } = .refused ∧
+    soapOpenTree (fun (e : Nat) => e < 100) { tagOk := true, parts := [.other] } = .ok [] none ∧
+    soapOpenTree (fun (e : Nat) => e < 100) { tagOk := false, parts := [.body [1]] } = .refused := by decide
+
+theorem C14_model_meets_spec_soap_open_foreign {ε : Type} [DecidableEq ε] (known : ε → Bool) (env : Envelope ε) :
+    specSoapOpenForeign env (soapOpenTree known env) = true := by
+  unfold specSoapOpenForeign
+  cases hout : soapOpenTree known env with
+  | refused => rfl
+  | ok hs b =>
+    obtain ⟨h1, h2, h3, _, _⟩ := C14_soap_open_sound known env hs b hout
+    simp only [h1, h2, beq_self_eq_true, Bool.true_and]
+    have hl := lastBodyHead_bodyParts env.parts none
+    split
+    · next e he =>
+      have := hl.2 [e] he
+      rw [h3] at this
+      cases b with
+      | none => simp at this
+      | some x => simp at this; simp [this]
+    · next he =>
+      have := hl.1 he
+      rw [h3] at this
+      cases b with
+      | none => rfl
+      | some x => simp at this
+    · rfl
+
+theorem C14_model_meets_spec_soap_open {ε : Type} [DecidableEq ε] (known : ε → Bool) (hdrs : List ε) (e : ε) :
+    specSoapOpen known hdrs e (soapWrapTree hdrs e) (soapOpenTree known (soapWrapTree hdrs e)) = true := by
+  unfold specSoapOpen
+  rw [headerItems_wrap, soapOpen_wrap]
+  have hparts : (soapWrapTree hdrs e).parts = (if hdrs.isEmpty then [] else [.header hdrs]) ++ [.body [e]] := rfl
+  have ht : (soapWrapTree hdrs e).tagOk = true := rfl
+  rw [hparts, ht]
+  by_cases hh : hdrs.isEmpty = true <;> by_cases hk : (known e && hdrs.all known) = true
+  · simp [hh, hk]
+  · have : (known e && hdrs.all known) = false := by simpa using hk
+    simp [hh, this]
+  · simp [hh, hk]
+  · have : (known e && hdrs.all known) = false := by simpa using hk
+    simp [hh, this]
+
+/-! ## 4c. The URI binding (`HTTPBase.use_http_uri`) and `Entity.unravel` outside the three codecs -/
+
+/-- **URI binding, request form**: for EVERY destination without `?` and `#`, any non-empty message
+    (identifier) and any relay state, the receiver's query parameters are exactly `ID` = the message and
+    RelayState iff one was given: no caller string adds, removes or changes a parameter. -/
+theorem C14_uri_request_roundtrip (msg dest rs : Bytes) (hq : 63 ∉ dest) (hh : 35 ∉ dest)
+    (hmsg : IsBytes msg) (hne : msg ≠ []) (hrs : IsBytes rs) :
+    specUrl dest (withRelay (sID, msg) rs) (uriUrl msg dest rs) = true ∧
+      parseQsl (queryOf (uriUrl msg dest rs)) = withRelay (sID, msg) rs := by
+  rw [uriUrl_eq_addQuery msg dest rs hq hh]
+  have h := addQuery_spec dest _ _ (urlencode_no_hash _) (withRelay_roundtrip sID msg rs isBytes_ID hmsg hne hrs)
+  refine ⟨h, ?_⟩
+  have h2 : parseQsl (queryOf dest) = [] := by rw [queryOf_no_q dest hq]; exact parseQsl_nil
+  simpa [specUrl, h2] using h
+
+/-- The statement is about destinations without a query: with one, the hand-glued `?` hides the
+    parameters (evaluated: `/?a=b` + `ID=x` reads back as `a = b?ID=x`). -/
+example : parseQsl (queryOf (uriUrl [120] [47, 63, 97, 61, 98] [])) = [([97], [98, 63, 73, 68, 61, 120])] ∧
+    parseQsl (queryOf (uriUrl [120, 38, 61] [47] [114, 35])) = [(sID, [120, 38, 61]), (sRelayState, [114, 35])] := by decide
+
+/-- **URI binding, response form**: a message of one line without surrounding white space is the
+    body, code point for code point; a message with a line break is cut to its second line. -/
+theorem C14_uri_response_intact (msg : List Nat) (hn : 10 ∉ msg)
+    (h1 : ∀ c, msg.head? = some c → pyIsSpace c = false) (h2 : ∀ c, msg.getLast? = some c → pyIsSpace c = false) :
+    useHttpUri sSAMLResponse msg [] [] [] = some (.response msg) := by
+  have hc : msg.contains 10 = false := by simpa using hn
+  unfold useHttpUri uriData
+  simp only [if_true, hc, Bool.false_eq_true, if_false, pyStrip_id msg h1 h2]
+
+/-- `<?xml …?>` + line break + a one-line body (the layout `to_string()` produces): the body. -/
+theorem C14_uri_response_second_line (decl body rest : List Nat) (hd : 10 ∉ decl) (hb : 10 ∉ body) :
+    uriData (decl ++ 10 :: body) = body ∧ uriData (decl ++ 10 :: body ++ 10 :: rest) = body := by
+  have hdw : ∀ t, (decl ++ 10 :: t).dropWhile (· != 10) = 10 :: t := by
+    intro t
+    induction decl with
+    | nil => simp [List.dropWhile]
+    | cons a d ih =>
+      have ha : a ≠ 10 := by intro e; subst e; simp at hd
+      have hd' : 10 ∉ d := fun hm => hd (by simp [hm])
+      simp [List.dropWhile, ha, ih hd']
+  have htw : ∀ t, (body ++ 10 :: t).takeWhile (· != 10) = body := by
+    intro t
+    induction body with
+    | nil => simp [List.takeWhile]
+    | cons a d ih =>
+      have ha : a ≠ 10 := by intro e; subst e; simp at hb
+      have hb' : 10 ∉ d := fun hm => hb (by simp [hm])
+      simp [List.takeWhile, ha, ih hb']
+  constructor
+  · have hc : (decl ++ 10 :: body).contains 10 = true := by simp
+    simp only [uriData, hc, if_true, hdw, List.drop_succ_cons, List.drop_zero]
+    exact takeWhile_all' body (ne_of_not_mem hb)
+  · have hc : (decl ++ 10 :: (body ++ 10 :: rest)).contains 10 = true := by simp
+    have : decl ++ 10 :: body ++ 10 :: rest = decl ++ 10 :: (body ++ 10 :: rest) := by simp
+    rw [this, uriData]
+    simp only [hc, if_true, hdw, List.drop_succ_cons, List.drop_zero, htw]
+
+example : uriData [60, 63, 62, 10, 60, 97, 47, 62] = [60, 97, 47, 62] ∧ uriData [32, 60, 97, 47, 62, 160] = [60, 97, 47, 62] ∧
+    useHttpUri sSAMLart [] [] [] [] = none := by decide
+
+theorem C14_model_meets_spec_uri (typ : Bytes) (pts : List Nat) (msg dest rs : Bytes)
+    (hmsg : IsBytes msg) (hrs : IsBytes rs) :
+    match useHttpUri typ pts msg dest rs with
+    | some (.request url) => specUriRequest msg dest rs url = true
+    | some (.response data) => specUriResponse pts data = true
+    | none => typ ≠ sSAMLRequest ∧ typ ≠ sSAMLResponse := by
+  unfold useHttpUri
+  by_cases h1 : typ = sSAMLResponse
+  · simp only [h1, if_true]
+    unfold specUriResponse
+    by_cases hc : pts.contains 10 = true
+    · simp only [hc, Bool.true_or]
+    · by_cases ha : pts.head?.any pyIsSpace = true
+      · simp only [ha, Bool.true_or, Bool.or_true]
+      · by_cases hb : pts.getLast?.any pyIsSpace = true
+        · simp only [hb, Bool.true_or, Bool.or_true]
+        · have hc' : pts.contains 10 = false := by simpa using hc
+          have e : uriData pts = pts := by
+            unfold uriData
+            simp only [hc', Bool.false_eq_true, if_false]
+            apply pyStrip_id
+            · intro c hcc; simpa [hcc] using ha
+            · intro c hcc; simpa [hcc] using hb
+          simp [e]
+  · by_cases h2 : typ = sSAMLRequest
+    · have h3 : ¬ sSAMLRequest = sSAMLResponse := by decide
+      subst h2
+      simp only [h3, if_false, if_true]
+      unfold specUriRequest
+      by_cases hq : 63 ∈ dest
+      · simp [hq]
+      · by_cases hh : 35 ∈ dest
+        · simp [hh]
+        · by_cases hne : msg = []
+          · simp [hne]
+          · simp [(C14_uri_request_roundtrip msg dest rs hq hh hmsg hne hrs).1]
+    · simp [h1, h2]
+
+/-- `Entity.unravel` for `BINDING_URI` / `None` hands the text on untouched; for a binding it does not
+    know it refuses, whatever the text. -/
+theorem C14_unravel_plain_unknown (inflate : Bytes → Option Bytes) (txt : Bytes) :
+    unravel inflate .plain txt = some txt ∧ unravel inflate .unknown txt = none := ⟨rfl, rfl⟩
 
 /-! ## 5. Artifacts -/
 
